@@ -593,12 +593,19 @@ func genBuilder(ctx TaggedStructContext, genMethod fp.Set[string]) fp.Set[string
 
 	if !isMethodDefined(workingPackage, builderTypeName, "Apply") {
 
+		// a field called like the receiver must not shadow it in the parameter list
+		argName := func(name string) string {
+			if name == "r" {
+				return "r_"
+			}
+			return name
+		}
 		tp := iterator.Map(seq.Iterator(allFields), func(v metafp.StructField) string {
-			return fmt.Sprintf("%s %s", v.Name, v.TypeName(w, workingPackage))
+			return fmt.Sprintf("%s %s", argName(v.Name), v.TypeName(w, workingPackage))
 		}).MakeString(",")
 
 		fields := iterator.Map(iterator.Zip(iterator.Range(0, allFields.Size()), seq.Iterator(allFields)), func(f fp.Tuple2[int, metafp.StructField]) string {
-			return fmt.Sprintf("r.%s = %s", f.I2.Name, f.I2.Name)
+			return fmt.Sprintf("r.%s = %s", f.I2.Name, argName(f.I2.Name))
 		}).MakeString("\n")
 
 		fmt.Fprintf(w, `
